@@ -21,7 +21,7 @@ EXTENDS Naturals, Sequences, FiniteSets, TLC, Json, IOUtils, SequencesExt
 Scens == ndJsonDeserialize(IOEnv.TRACES)
 VARIABLES i, verdict
 
-Late == 150000      \* a timer that is more than this late counts as lost
+Late == 400000      \* a timer that is more than this late counts as lost
 EndSlack == 20000   \* the timer of a session may outlive the tracer's last callback by this much
 
 Pow10(n) == IF n = 0 THEN 1 ELSE IF n = 1 THEN 10 ELSE IF n = 2 THEN 100 ELSE IF n = 3 THEN 1000 ELSE 10000
